@@ -14,7 +14,8 @@ U10 == L10 \cup { P(e) : e \in {Id("a"), SelE(Id("a"), "b")} } \cup { <<"Pre", "
            \cup { Asg("$l", e) : e \in {Id("b"), N(1), SelE(Id("a"), "k")} } \cup { Asg("b", N(1)), <<"Bin", "=", SelE(Id("a"), "k"), Id("c")>> }
 GroupsC10 == { <<"one">> } \cup { <<"bin", a>> : a \in U10 } \cup { <<"cond", c>> : c \in {Id("e"), Id("b"), SelE(Id("a"), "k")} }
 GroupProgramsC10(g) ==
-  CASE g[1] = "one" -> U10
+  CASE g[1] = "one" -> U10 \cup { <<"Arr", <<x, y, x>>>> : x \in {Id("B"), Id("b"), SelE(Id("a"), "b")}, y \in {Id("b"), Id("B"), SelE(Id("A"), "b"), Id("c")} }
+                           \cup { <<"Arr", <<x, y, z, x, y>>>> : x \in {Id("b")}, y \in {Id("B")}, z \in {Id("c"), Id("C")} }      \* repeated and interleaved occurrences: no duplicates
     [] g[1] = "bin" -> { <<"Bin", op, g[2], b>> : op \in {"+", ",", "&&", "==="}, b \in {x \in U10 : Level(x) >= 11} }
     [] g[1] = "cond" -> { <<"Cond", g[2], a, b>> : a \in U10, b \in {Id("c"), SelE(Id("a"), "b"), Id("$l"), N(1)} }
 =============================================================================
